@@ -24,6 +24,8 @@ use surf_n_term::{
 };
 use verif_harness::{Cfg, r#gen::Rng, guarded, out::Out};
 
+/// faces the one-field glyph variants are drawn with (faces with a visible foreground)
+const VAR_FACES: [usize; 2] = [1, 4];
 const PPC_H: usize = 20;
 const PPC_W: usize = 10;
 const SYMS: &[u8] = b"abcdefghijklmnopqrstuvwxyzABCDEFGHIJKLMNOPQRSTUVWXYZ0123456789";
@@ -36,13 +38,18 @@ struct Rec {
     caps: TerminalCaps,
 }
 impl Rec {
-    fn new(h: usize, w: usize) -> Self {
+    fn new(h: usize, w: usize, px: (usize, usize)) -> Self {
         Rec {
-            size: TerminalSize { cells: Size::new(h, w), pixels: Size::new(h * PPC_H, w * PPC_W) },
+            size: term_size(h, w, px),
             cmds: Vec::new(),
             caps: TerminalCaps::default(),
         }
     }
+}
+/// Terminal of `h x w` cells whose pixel size is NOT a multiple of the cell count when `px != (0, 0)`:
+/// `px.0 < h` and `px.1 < w` extra pixels, so that a cell still has `PPC_H x PPC_W` whole pixels.
+fn term_size(h: usize, w: usize, px: (usize, usize)) -> TerminalSize {
+    TerminalSize { cells: Size::new(h, w), pixels: Size::new(h * PPC_H + px.0, w * PPC_W + px.1) }
 }
 impl Write for Rec {
     fn write(&mut self, buf: &[u8]) -> std::io::Result<usize> {
@@ -110,6 +117,8 @@ struct World {
     content: Vec<usize>,
     /// alphabet[crop_start..crop_start + 8]: crops of one picture (ids 2..5) in faces 0 and 3
     crop_start: usize,
+    /// alphabet[gvar_start..gvar_start + 8]: glyphs that differ from glyph 0 in one field, faces VAR_FACES
+    gvar_start: usize,
 }
 
 const CHARS: &[char] = &[' ', 'a', 'b', 'x', '世', '🤩'];
@@ -157,29 +166,55 @@ impl World {
             Image::from(surf)
         };
         images.extend([crop_a, crop_b, crop_c, copy_a]);
-        let glyph: Glyph = serde_json::from_str(
-            r#"{"view_box":[0,0,24,24],"size":[1,2],"path":"M10,17L5,12L6.41,10.58L10,14.17L17.59,6.58L19,8M12,2A10,10 0 0,0 2,12A10,10 0 0,0 12,22A10,10 0 0,0 22,12A10,10 0 0,0 12,2Z"}"#,
-        )
-        .unwrap();
-        let mut raster = Vec::new();
-        for (fi, f) in faces.iter().enumerate() {
-            let img = glyph.rasterize(*f, tsize);
-            let id = match images.iter().position(|i| same_image(i, &img)) {
-                Some(id) => id,
-                None => {
-                    images.push(img);
-                    images.len() - 1
-                }
-            };
-            raster.push((fi, 0usize, id));
-        }
-        let sizes: Vec<(usize, usize)> = images
+        // glyphs that differ in exactly one field: 0 = base, 1 = frame, 2 = view box, 3 = scene, 4 = size
+        let path = "M10,17L5,12L6.41,10.58L10,14.17L17.59,6.58L19,8M12,2A10,10 0 0,0 2,12A10,10 0 0,0 12,22A10,10 0 0,0 22,12A10,10 0 0,0 12,2Z";
+        let path2 = "M4,4L20,4L20,20L4,20Z";
+        let glyph_json = |view_box: &str, size: &str, path: &str, frame: &str| {
+            format!(r#"{{"view_box":{view_box},"size":{size},"path":"{path}"{frame}}}"#)
+        };
+        let frame = r##","frame":{"border_width":[3,3,3,3],"border_color":"#00ff00","fill_color":"#0000ff"}"##;
+        let glyph_specs: Vec<(String, (usize, usize))> = vec![
+            (glyph_json("[0,0,24,24]", "[1,2]", path, ""), (1, 2)),
+            (glyph_json("[0,0,24,24]", "[1,2]", path, frame), (1, 2)),
+            (glyph_json("[0,0,48,48]", "[1,2]", path, ""), (1, 2)),
+            (glyph_json("[0,0,24,24]", "[1,2]", path2, ""), (1, 2)),
+            (glyph_json("[0,0,24,24]", "[1,3]", path, ""), (1, 3)),
+        ];
+        let glyphs: Vec<Glyph> = glyph_specs.iter().map(|(j, _)| serde_json::from_str(j).unwrap()).collect();
+        // faces each glyph is drawn with
+        let glyph_faces = |g: usize| -> Vec<usize> { if g == 0 { (0..faces.len()).collect() } else { VAR_FACES.to_vec() } };
+        // The picture expected for (face, glyph): the glyph rasterised at EXACTLY `declared cells x whole
+        // pixels of a cell`.  It is obtained on a 1 x 1 cell terminal of PPC_H x PPC_W pixels, where
+        // "cells in pixels" is this product under any reading; its cell size is the declared one (raw).
+        let exact = TerminalSize { cells: Size::new(1, 1), pixels: Size::new(PPC_H, PPC_W) };
+        let mut cell_sizes: Vec<(usize, usize)> = images
             .iter()
-            .map(|i| {
-                let s = i.size_cells(ppc);
-                (s.height, s.width)
-            })
+            .map(|i| (i.height().div_ceil(PPC_H), i.width().div_ceil(PPC_W)))
             .collect();
+        let mut raster = Vec::new();
+        for (g, glyph) in glyphs.iter().enumerate() {
+            for fi in glyph_faces(g) {
+                let img = glyph.rasterize(faces[fi], exact);
+                assert_eq!((img.height(), img.width()), (glyph_specs[g].1.0 * PPC_H, glyph_specs[g].1.1 * PPC_W));
+                let id = match images.iter().position(|i| same_image(i, &img)) {
+                    Some(id) => id,
+                    None => {
+                        images.push(img);
+                        cell_sizes.push(glyph_specs[g].1);
+                        images.len() - 1
+                    }
+                };
+                raster.push((fi, g, id));
+            }
+        }
+        // identification of the renderer's rasterisations by their pixels must be unambiguous
+        for (a, x) in raster.iter().enumerate() {
+            for y in &raster[..a] {
+                assert!(x.2 != y.2, "two glyph pictures of the alphabet coincide: {x:?} {y:?}");
+            }
+        }
+        let sizes = cell_sizes;
+        let _ = (tsize, ppc);
         // widths as the implementation sees them (`Cell::size` = unicode-width)
         let ctx = ViewContext::dummy();
         let mut widths = BTreeMap::new();
@@ -203,13 +238,20 @@ impl World {
         }
         for fi in 0..faces.len() {
             alpha.push(Sym { face: fi, kind: SymKind::Gly(0) });
-            cells.push(Cell::new_glyph(faces[fi], glyph.clone()));
+            cells.push(Cell::new_glyph(faces[fi], glyphs[0].clone()));
         }
         let crop_start = alpha.len();
         for img in 2..6 {
             for fi in [0usize, 3] {
                 alpha.push(Sym { face: fi, kind: SymKind::Img(img) });
                 cells.push(Cell::new_image(images[img].clone()).with_face(faces[fi]));
+            }
+        }
+        let gvar_start = alpha.len();
+        for g in 1..glyphs.len() {
+            for fi in glyph_faces(g) {
+                alpha.push(Sym { face: fi, kind: SymKind::Gly(g) });
+                cells.push(Cell::new_glyph(faces[fi], glyphs[g].clone()));
             }
         }
         assert!(alpha.len() <= SYMS.len());
@@ -230,7 +272,7 @@ impl World {
         let np: Vec<String> = plain.iter().enumerate().filter(|(_, p)| !**p).map(|(i, _)| i.to_string()).collect();
         let np = if np.is_empty() { "-".to_string() } else { np.join(",") };
         let tables = format!("{} {} {} {} {}", ws.join(","), ss.join(","), rs.join(","), np, al.join(","));
-        World { faces, images, sizes, raster, widths, alpha, cells, tables, n_chars, plain, content, crop_start }
+        World { faces, images, sizes, raster, widths, alpha, cells, tables, n_chars, plain, content, crop_start, gvar_start }
     }
     fn width(&self, ch: u32) -> usize {
         *self.widths.get(&ch).unwrap_or(&1)
@@ -299,6 +341,8 @@ struct Hist {
     steps: Vec<Step>,
     /// drive the real `Terminal::run_render` (clear0 = false, blank start)
     session: bool,
+    /// extra pixels of the terminal (cells are not a whole number of pixels), see `term_size`
+    px: (usize, usize),
 }
 
 /// canonical commands
@@ -408,7 +452,7 @@ fn run_impl(world: &World, hist: &Hist) -> Result<Vec<Vec<OC>>, ()> {
         return run_session(world, hist);
     }
     guarded(|| {
-        let mut term = Rec::new(hist.h, hist.w);
+        let mut term = Rec::new(hist.h, hist.w, hist.px);
         let mut renderer = TerminalRenderer::new(&mut term, hist.clear0).unwrap();
         let mut res = Vec::new();
         let mut drawn = false; // the surface of the coming frame is already in the front buffer
@@ -561,7 +605,7 @@ fn run_session(world: &World, hist: &Hist) -> Result<Vec<Vec<OC>>, ()> {
     guarded(|| {
         let mut term = SessionTerm {
             world,
-            size: TerminalSize { cells: Size::new(hist.h, hist.w), pixels: Size::new(hist.h * PPC_H, hist.w * PPC_W) },
+            size: term_size(hist.h, hist.w, hist.px),
             caps: TerminalCaps::default(),
             turns: turns.clone(),
             polls: 0,
@@ -1066,6 +1110,7 @@ fn exec_request(world: &World, hist: &Hist, cmds: &[Vec<OC>]) -> String {
 fn hist_json(world: &World, hist: &Hist, class: Option<&'static str>) -> Value {
     json!({
         "h": hist.h, "w": hist.w, "clear0": hist.clear0, "session": hist.session,
+        "extra_pixels": [hist.px.0, hist.px.1],
         "init": hist.init.as_ref().map(|g| world.sym_str(g)),
         "steps": hist.steps.iter().map(|s| step_name(world, s)).collect::<Vec<_>>(),
         "well_placed": class.is_none(),
@@ -1101,7 +1146,8 @@ fn parse_hist(world: &World, v: &Value) -> Option<Hist> {
         g.resize(h * w, 0);
         g
     });
-    Some(Hist { h, w, clear0: v["clear0"].as_bool().unwrap_or(true), init, steps, session: v["session"].as_bool().unwrap_or(false) })
+    let px = (v["extra_pixels"][0].as_u64().unwrap_or(0) as usize, v["extra_pixels"][1].as_u64().unwrap_or(0) as usize);
+    Some(Hist { h, w, clear0: v["clear0"].as_bool().unwrap_or(true), init, steps, session: v["session"].as_bool().unwrap_or(false), px })
 }
 
 // ---------------------------------------------------------------- generation
@@ -1130,6 +1176,9 @@ fn random_cell(world: &World, rng: &mut Rng, class: Class) -> u8 {
             2 => {
                 return if rng.chance(1, 3) {
                     (world.crop_start + rng.below(8) as usize) as u8
+                } else if rng.chance(1, 3) {
+                    // the base glyph and its one-field variants in the same two faces
+                    if rng.chance(1, 3) { (world.n_chars + 2 * world.faces.len() + VAR_FACES[rng.below(2) as usize]) as u8 } else { (world.gvar_start + rng.below(8) as usize) as u8 }
                 } else {
                     (world.n_chars + (rng.below(3) as usize) * world.faces.len() + face) as u8
                 };
@@ -1261,7 +1310,17 @@ fn random_hist(world: &World, rng: &mut Rng, big: bool) -> (Hist, Class) {
                     s[q] = base[q];
                     // an image cell is replaced in place by another crop of the same picture (same
                     // size, other size) or by a copy of its pixels in another allocation
-                    if (base[q] as usize) >= world.crop_start && rng.chance(2, 3) {
+                    if (base[q] as usize) >= world.gvar_start {
+                        // … or a glyph by a glyph that differs in one field (same face)
+                        if rng.chance(2, 3) {
+                            let slot = (base[q] as usize - world.gvar_start) % 2;
+                            s[q] = if rng.chance(1, 4) {
+                                (world.n_chars + 2 * world.faces.len() + VAR_FACES[slot]) as u8
+                            } else {
+                                (world.gvar_start + 2 * rng.below(4) as usize + slot) as u8
+                            };
+                        }
+                    } else if (base[q] as usize) >= world.crop_start && rng.chance(2, 3) {
                         let slot = (base[q] as usize - world.crop_start) % 2;
                         s[q] = (world.crop_start + 2 * rng.below(4) as usize + slot) as u8;
                     }
@@ -1304,7 +1363,9 @@ fn random_hist(world: &World, rng: &mut Rng, big: bool) -> (Hist, Class) {
     if session && !matches!(steps.last(), Some(Step::Frame(_))) {
         steps.push(frame(rng, &mut prev));
     }
-    (Hist { h, w, clear0, init, steps, session }, class)
+    // half of the terminals have cells that are not a whole number of pixels
+    let px = if rng.chance(1, 2) { (rng.below(h.max(1) as u64) as usize, rng.below(w.max(1) as u64) as usize) } else { (0, 0) };
+    (Hist { h, w, clear0, init, steps, session, px }, class)
 }
 
 /// white-box corner cases, exercised whatever the seed
@@ -1324,11 +1385,11 @@ fn corner_cases(world: &World) -> Vec<Hist> {
     let blank = |h: usize, w: usize| Step::Frame(vec![0u8; h * w]);
     for clear0 in [false, true] {
         // first painted cell has the old sentinel face
-        res.push(Hist { h: 2, w: 4, clear0, init: None, session: false, steps: vec![frame(2, 4, &[(0, 0, sym(1, 2))]), frame(2, 4, &[(1, 2, sym(2, 2))])] });
+        res.push(Hist { h: 2, w: 4, clear0, init: None, session: false, px: (0, 0), steps: vec![frame(2, 4, &[(0, 0, sym(1, 2))]), frame(2, 4, &[(1, 2, sym(2, 2))])] });
         // clear / recreate must repaint cells equal to the default cell
-        res.push(Hist { h: 1, w: 3, clear0, init: None, session: false, steps: vec![frame(1, 3, &[(0, 0, sym(3, 0))]), Step::Clear, blank(1, 3)] });
-        res.push(Hist { h: 1, w: 3, clear0, init: None, session: false, steps: vec![frame(1, 3, &[(0, 0, sym(3, 0))]), Step::Recreate, blank(1, 3)] });
-        res.push(Hist { h: 2, w: 3, clear0, init: None, session: false, steps: vec![frame(2, 3, &[(1, 1, sym(3, 1))]), Step::Skip, Step::Clear, Step::Skip, frame(2, 3, &[(0, 0, sym(1, 0))])] });
+        res.push(Hist { h: 1, w: 3, clear0, init: None, session: false, px: (0, 0), steps: vec![frame(1, 3, &[(0, 0, sym(3, 0))]), Step::Clear, blank(1, 3)] });
+        res.push(Hist { h: 1, w: 3, clear0, init: None, session: false, px: (0, 0), steps: vec![frame(1, 3, &[(0, 0, sym(3, 0))]), Step::Recreate, blank(1, 3)] });
+        res.push(Hist { h: 2, w: 3, clear0, init: None, session: false, px: (0, 0), steps: vec![frame(2, 3, &[(1, 1, sym(3, 1))]), Step::Skip, Step::Clear, Step::Skip, frame(2, 3, &[(0, 0, sym(1, 0))])] });
         // blank runs of length 4 and 5, also next to an ignored cell and in a non-default face
         for run in [3usize, 4, 5, 6] {
             let w = 8;
@@ -1339,22 +1400,22 @@ fn corner_cases(world: &World) -> Vec<Hist> {
                 b[c] = sym(0, 0);
                 b[w + c] = sym(0, 1);
             }
-            res.push(Hist { h: 2, w, clear0, init: None, session: false, steps: vec![Step::Frame(a.clone()), Step::Frame(b.clone()), Step::Frame(a.clone())] });
+            res.push(Hist { h: 2, w, clear0, init: None, session: false, px: (0, 0), steps: vec![Step::Frame(a.clone()), Step::Frame(b.clone()), Step::Frame(a.clone())] });
             let mut c = b.clone();
             c[1 + run] = img(0, 0);
             repair(world, 2, w, &mut c);
-            res.push(Hist { h: 2, w, clear0, init: None, session: false, steps: vec![Step::Frame(a), Step::Frame(c), Step::Frame(b)] });
+            res.push(Hist { h: 2, w, clear0, init: None, session: false, px: (0, 0), steps: vec![Step::Frame(a), Step::Frame(c), Step::Frame(b)] });
         }
         // wide characters: next-to-last column, replaced by narrow, shadow cell changes, neighbours
         let w = 5;
-        res.push(Hist { h: 1, w, clear0, init: None, session: false, steps: vec![frame(1, w, &[(0, 3, sym(4, 0))]), frame(1, w, &[(0, 3, sym(1, 0))]), frame(1, w, &[(0, 3, sym(4, 0)), (0, 4, sym(2, 0))]), frame(1, w, &[(0, 3, sym(4, 0)), (0, 4, sym(3, 1))]), frame(1, w, &[(0, 2, sym(5, 0)), (0, 3, sym(4, 0))]), frame(1, w, &[(0, 1, sym(5, 1)), (0, 3, sym(4, 0))])] });
-        res.push(Hist { h: 1, w, clear0, init: None, session: false, steps: vec![frame(1, w, &[(0, 0, sym(4, 0)), (0, 2, sym(5, 0))]), frame(1, w, &[(0, 1, sym(4, 0)), (0, 3, sym(5, 0))]), Step::Clear, frame(1, w, &[(0, 0, sym(4, 2)), (0, 2, sym(1, 2))])] });
+        res.push(Hist { h: 1, w, clear0, init: None, session: false, px: (0, 0), steps: vec![frame(1, w, &[(0, 3, sym(4, 0))]), frame(1, w, &[(0, 3, sym(1, 0))]), frame(1, w, &[(0, 3, sym(4, 0)), (0, 4, sym(2, 0))]), frame(1, w, &[(0, 3, sym(4, 0)), (0, 4, sym(3, 1))]), frame(1, w, &[(0, 2, sym(5, 0)), (0, 3, sym(4, 0))]), frame(1, w, &[(0, 1, sym(5, 1)), (0, 3, sym(4, 0))])] });
+        res.push(Hist { h: 1, w, clear0, init: None, session: false, px: (0, 0), steps: vec![frame(1, w, &[(0, 0, sym(4, 0)), (0, 2, sym(5, 0))]), frame(1, w, &[(0, 1, sym(4, 0)), (0, 3, sym(5, 0))]), Step::Clear, frame(1, w, &[(0, 0, sym(4, 2)), (0, 2, sym(1, 2))])] });
         // images: at the origin, moved, replaced, glyph, erased by clear
-        res.push(Hist { h: 3, w: 6, clear0, init: None, session: false, steps: vec![frame(3, 6, &[(0, 0, img(1, 1))]), frame(3, 6, &[(1, 2, img(1, 1))]), frame(3, 6, &[(1, 2, img(0, 2)), (0, 0, gly(1))]), Step::Clear, frame(3, 6, &[(0, 0, gly(1)), (2, 1, sym(4, 0))]), Step::Recreate, frame(3, 6, &[(2, 4, gly(0))])] });
+        res.push(Hist { h: 3, w: 6, clear0, init: None, session: false, px: (0, 0), steps: vec![frame(3, 6, &[(0, 0, img(1, 1))]), frame(3, 6, &[(1, 2, img(1, 1))]), frame(3, 6, &[(1, 2, img(0, 2)), (0, 0, gly(1))]), Step::Clear, frame(3, 6, &[(0, 0, gly(1)), (2, 1, sym(4, 0))]), Step::Recreate, frame(3, 6, &[(2, 4, gly(0))])] });
         // an unchanged two-row image in a non-default face; blanks in other faces are painted left of it
         for f in 0..3 {
             for g in 0..3 {
-                res.push(Hist { h: 3, w: 6, clear0, init: None, session: false, steps: vec![
+                res.push(Hist { h: 3, w: 6, clear0, init: None, session: false, px: (0, 0), steps: vec![
                     frame(3, 6, &[(1, 0, sym(1, 0)), (0, 1, img(1, f))]),
                     frame(3, 6, &[(1, 0, sym(0, g)), (0, 1, img(1, f))]),
                     frame(3, 6, &[(0, 0, sym(0, g)), (1, 0, sym(0, f)), (0, 1, img(1, f)), (0, 4, sym(0, g)), (1, 4, sym(0, g)), (1, 5, sym(0, g))]),
@@ -1362,64 +1423,93 @@ fn corner_cases(world: &World) -> Vec<Hist> {
             }
         }
         // ill-placed: image overhanging the bottom edge, overlapping images, wide character cut by an image
-        res.push(Hist { h: 2, w: 4, clear0, init: None, session: false, steps: vec![frame(2, 4, &[(1, 2, img(1, 0))]), blank(2, 4)] });
-        res.push(Hist { h: 3, w: 6, clear0, init: None, session: false, steps: vec![frame(3, 6, &[(0, 0, img(1, 0)), (1, 1, img(1, 1))]), frame(3, 6, &[(1, 1, img(1, 1))]), blank(3, 6)] });
-        res.push(Hist { h: 2, w: 6, clear0, init: None, session: false, steps: vec![frame(2, 6, &[(0, 1, sym(4, 0))]), frame(2, 6, &[(0, 1, sym(4, 0)), (0, 2, img(0, 0))]), frame(2, 6, &[(0, 1, sym(4, 0))])] });
+        res.push(Hist { h: 2, w: 4, clear0, init: None, session: false, px: (0, 0), steps: vec![frame(2, 4, &[(1, 2, img(1, 0))]), blank(2, 4)] });
+        res.push(Hist { h: 3, w: 6, clear0, init: None, session: false, px: (0, 0), steps: vec![frame(3, 6, &[(0, 0, img(1, 0)), (1, 1, img(1, 1))]), frame(3, 6, &[(1, 1, img(1, 1))]), blank(3, 6)] });
+        res.push(Hist { h: 2, w: 6, clear0, init: None, session: false, px: (0, 0), steps: vec![frame(2, 6, &[(0, 1, sym(4, 0))]), frame(2, 6, &[(0, 1, sym(4, 0)), (0, 2, img(0, 0))]), frame(2, 6, &[(0, 1, sym(4, 0))])] });
     }
     for f in 0..nf {
         // blank runs in faces whose attributes show on a space must not be erased
         for n in [4usize, 5, 8] {
-            res.push(Hist { h: 1, w: n, clear0: false, init: None, session: false, steps: vec![Step::Frame(vec![sym(0, f); n])] });
+            res.push(Hist { h: 1, w: n, clear0: false, init: None, session: false, px: (0, 0), steps: vec![Step::Frame(vec![sym(0, f); n])] });
             let mut a = vec![sym(1, f); 8];
             a.extend(vec![sym(0, f); 8]);
             let mut b = a.clone();
             for c in 1..n.min(7) + 1 {
                 b[c] = sym(0, f);
             }
-            res.push(Hist { h: 2, w: 8, clear0: true, init: None, session: false, steps: vec![Step::Frame(a), Step::Frame(b)] });
+            res.push(Hist { h: 2, w: 8, clear0: true, init: None, session: false, px: (0, 0), steps: vec![Step::Frame(a), Step::Frame(b)] });
         }
         // an image in such a face
-        res.push(Hist { h: 3, w: 6, clear0: false, init: None, session: false, steps: vec![frame(3, 6, &[(0, 1, img(1, f)), (2, 0, gly(f))]), frame(3, 6, &[(0, 1, img(1, f)), (2, 2, gly(f)), (2, 0, sym(0, f))])] });
+        res.push(Hist { h: 3, w: 6, clear0: false, init: None, session: false, px: (0, 0), steps: vec![frame(3, 6, &[(0, 1, img(1, f)), (2, 0, gly(f))]), frame(3, 6, &[(0, 1, img(1, f)), (2, 2, gly(f)), (2, 0, sym(0, f))])] });
     }
     // an image cell replaced in place by (a) another crop of the same backing picture with the same size,
     // (b) a crop of another size, (c) a copy of its pixels in another allocation, and back
     for slot in 0..2usize {
         let crop = |k: usize| (world.crop_start + 2 * k + slot) as u8;
         for (a, b) in [(0usize, 1usize), (0, 2), (0, 3), (1, 0), (2, 0), (3, 0), (2, 1), (3, 1)] {
-            res.push(Hist { h: 3, w: 6, clear0: false, init: None, session: false, steps: vec![
+            res.push(Hist { h: 3, w: 6, clear0: false, init: None, session: false, px: (0, 0), steps: vec![
                 frame(3, 6, &[(0, 1, crop(a)), (2, 0, sym(1, 0))]),
                 frame(3, 6, &[(0, 1, crop(b)), (2, 0, sym(1, 0))]),
                 frame(3, 6, &[(0, 1, crop(a)), (2, 0, sym(2, 0))]),
             ] });
         }
-        res.push(Hist { h: 3, w: 6, clear0: false, init: None, session: true, steps: vec![
+        res.push(Hist { h: 3, w: 6, clear0: false, init: None, session: true, px: (0, 0), steps: vec![
             frame(3, 6, &[(1, 2, crop(0))]), frame(3, 6, &[(1, 2, crop(1))]), Step::Skip, frame(3, 6, &[(1, 2, crop(2))]),
             Step::Recreate, frame(3, 6, &[(1, 2, crop(3))]), frame(3, 6, &[(1, 2, crop(0))]),
         ] });
     }
+    // glyphs that differ in ONE field (frame, view box, scene, size), same face, one renderer: each must
+    // be shown as its own picture, also after clear() (the glyph cache lives as long as the renderer)
+    for slot in 0..2usize {
+        let g = |k: usize| if k == 0 { gly(VAR_FACES[slot]) } else { (world.gvar_start + 2 * (k - 1) + slot) as u8 };
+        for k in 1..5usize {
+            res.push(Hist { h: 3, w: 6, clear0: false, init: None, session: false, px: (0, 0), steps: vec![
+                frame(3, 6, &[(0, 0, g(0))]),
+                frame(3, 6, &[(0, 0, g(0)), (1, 0, g(k))]),
+                frame(3, 6, &[(0, 0, g(k)), (1, 0, g(0))]),
+                Step::Clear,
+                frame(3, 6, &[(0, 0, g(k)), (1, 0, g(0))]),
+                frame(3, 6, &[(2, 0, g(k))]),
+            ] });
+        }
+    }
+    // cells that are not a whole number of pixels: a glyph still covers exactly its declared cells
+    for (h, w, px) in [(2usize, 5usize, (1usize, 3usize)), (3, 8, (2, 7)), (1, 4, (0, 2)), (4, 6, (3, 5))] {
+        for slot in 0..2usize {
+            let wide_g = (world.gvar_start + 6 + slot) as u8; // the 1 x 3 glyph
+            let mut cells = vec![(0usize, 0usize, gly(slot)), (0, 2, sym(3, 0))];
+            if h > 1 {
+                cells.push((1, 0, wide_g));
+                cells.push((1, 3, sym(1, 1)));
+            }
+            for session in [false, true] {
+                res.push(Hist { h, w, clear0: false, init: None, session, px, steps: vec![frame(h, w, &cells), frame(h, w, &[(0, 1, gly(slot)), (0, 3, sym(2, 0))]), frame(h, w, &cells)] });
+            }
+        }
+    }
     // the frame is drawn before clear() (frame-drop path), directly and through run_render
     for session in [false, true] {
-        res.push(Hist { h: 1, w: 3, clear0: false, init: None, session, steps: vec![frame(1, 3, &[(0, 0, sym(3, 0))]), Step::ClearAfterDraw, frame(1, 3, &[(0, 1, sym(1, 1))])] });
-        res.push(Hist { h: 3, w: 6, clear0: false, init: None, session, steps: vec![frame(3, 6, &[(0, 0, img(1, 1)), (2, 5, sym(2, 0))]), Step::ClearAfterDraw, frame(3, 6, &[(1, 2, gly(2)), (0, 0, sym(4, 0))]), Step::Skip, frame(3, 6, &[(1, 2, gly(2))])] });
+        res.push(Hist { h: 1, w: 3, clear0: false, init: None, session, px: (0, 0), steps: vec![frame(1, 3, &[(0, 0, sym(3, 0))]), Step::ClearAfterDraw, frame(1, 3, &[(0, 1, sym(1, 1))])] });
+        res.push(Hist { h: 3, w: 6, clear0: false, init: None, session, px: (0, 0), steps: vec![frame(3, 6, &[(0, 0, img(1, 1)), (2, 5, sym(2, 0))]), Step::ClearAfterDraw, frame(3, 6, &[(1, 2, gly(2)), (0, 0, sym(4, 0))]), Step::Skip, frame(3, 6, &[(1, 2, gly(2))])] });
     }
     // resize in run_render: the old images must be erased and everything repainted
-    res.push(Hist { h: 3, w: 6, clear0: false, init: None, session: true, steps: vec![frame(3, 6, &[(0, 0, img(1, 1)), (2, 5, sym(2, 0))]), Step::Recreate, frame(3, 6, &[(2, 0, sym(1, 0))]), Step::Recreate, Step::Skip, frame(3, 6, &[])] });
-    res.push(Hist { h: 1, w: 3, clear0: false, init: None, session: true, steps: vec![frame(1, 3, &[(0, 0, sym(3, 0))]), Step::Recreate, frame(1, 3, &[])] });
-    res.push(Hist { h: 2, w: 4, clear0: false, init: None, session: true, steps: vec![frame(2, 4, &[(0, 0, gly(1))]), Step::Recreate, Step::ClearAfterDraw, frame(2, 4, &[(1, 1, gly(1))])] });
+    res.push(Hist { h: 3, w: 6, clear0: false, init: None, session: true, px: (0, 0), steps: vec![frame(3, 6, &[(0, 0, img(1, 1)), (2, 5, sym(2, 0))]), Step::Recreate, frame(3, 6, &[(2, 0, sym(1, 0))]), Step::Recreate, Step::Skip, frame(3, 6, &[])] });
+    res.push(Hist { h: 1, w: 3, clear0: false, init: None, session: true, px: (0, 0), steps: vec![frame(1, 3, &[(0, 0, sym(3, 0))]), Step::Recreate, frame(1, 3, &[])] });
+    res.push(Hist { h: 2, w: 4, clear0: false, init: None, session: true, px: (0, 0), steps: vec![frame(2, 4, &[(0, 0, gly(1))]), Step::Recreate, Step::ClearAfterDraw, frame(2, 4, &[(1, 1, gly(1))])] });
     // wide characters hidden under an image: wholly inside, and cut by its right edge
-    res.push(Hist { h: 3, w: 6, clear0: false, init: None, session: false, steps: vec![frame(3, 6, &[(0, 1, img(1, 1)), (1, 2, sym(4, 0))]), frame(3, 6, &[(0, 1, img(1, 1)), (1, 1, sym(5, 2)), (1, 4, sym(1, 0))]), frame(3, 6, &[(1, 2, sym(4, 0))])] });
-    res.push(Hist { h: 3, w: 6, clear0: false, init: None, session: false, steps: vec![frame(3, 6, &[(0, 1, img(1, 1)), (1, 3, sym(4, 0)), (1, 4, sym(1, 0))]), frame(3, 6, &[(0, 1, img(1, 1)), (1, 3, sym(4, 0)), (1, 4, sym(2, 0))])] });
+    res.push(Hist { h: 3, w: 6, clear0: false, init: None, session: false, px: (0, 0), steps: vec![frame(3, 6, &[(0, 1, img(1, 1)), (1, 2, sym(4, 0))]), frame(3, 6, &[(0, 1, img(1, 1)), (1, 1, sym(5, 2)), (1, 4, sym(1, 0))]), frame(3, 6, &[(1, 2, sym(4, 0))])] });
+    res.push(Hist { h: 3, w: 6, clear0: false, init: None, session: false, px: (0, 0), steps: vec![frame(3, 6, &[(0, 1, img(1, 1)), (1, 3, sym(4, 0)), (1, 4, sym(1, 0))]), frame(3, 6, &[(0, 1, img(1, 1)), (1, 3, sym(4, 0)), (1, 4, sym(2, 0))])] });
     // known finding, sub-class cut: a wide character hidden under the LAST column of a new image whose
     // cell was damaged by the erase of an old image is painted and casts its shadow outside the image
-    res.push(Hist { h: 3, w: 6, clear0: false, init: None, session: false, steps: vec![frame(3, 6, &[(1, 1, img(0, 0))]), frame(3, 6, &[(0, 0, img(1, 1)), (1, 2, sym(4, 0)), (1, 3, sym(3, 0))])] });
+    res.push(Hist { h: 3, w: 6, clear0: false, init: None, session: false, px: (0, 0), steps: vec![frame(3, 6, &[(1, 1, img(0, 0))]), frame(3, 6, &[(0, 0, img(1, 1)), (1, 2, sym(4, 0)), (1, 3, sym(3, 0))])] });
     // empty terminals
     for (h, w) in [(0usize, 0usize), (0, 3), (2, 0)] {
-        res.push(Hist { h, w, clear0: true, init: None, session: false, steps: vec![Step::Frame(vec![]), Step::Clear, Step::Frame(vec![]), Step::Recreate, Step::Frame(vec![])] });
+        res.push(Hist { h, w, clear0: true, init: None, session: false, px: (0, 0), steps: vec![Step::Frame(vec![]), Step::Clear, Step::Frame(vec![]), Step::Recreate, Step::Frame(vec![])] });
     }
     // a terminal that shows something else when the renderer is created with clear = true
     let g: Vec<u8> = vec![sym(4, 1), 0, sym(3, 2), sym(5, 0), 0, sym(1, 1)];
-    res.push(Hist { h: 2, w: 3, clear0: true, init: Some(g.clone()), session: false, steps: vec![blank(2, 3)] });
-    res.push(Hist { h: 2, w: 3, clear0: true, init: Some(g), session: false, steps: vec![frame(2, 3, &[(0, 1, sym(4, 0)), (1, 0, sym(2, 2))])] });
+    res.push(Hist { h: 2, w: 3, clear0: true, init: Some(g.clone()), session: false, px: (0, 0), steps: vec![blank(2, 3)] });
+    res.push(Hist { h: 2, w: 3, clear0: true, init: Some(g), session: false, px: (0, 0), steps: vec![frame(2, 3, &[(0, 1, sym(4, 0)), (1, 0, sym(2, 2))])] });
     res
 }
 
